@@ -49,16 +49,16 @@ func (g c11Grid) String() string {
 type c11Action int
 
 const (
-	c11Send1    c11Action = iota // one datagram if CanSend && HasPacingBudget(now)
-	c11Burst                     // up to c11BurstCap datagrams while allowed, at the same instant
-	c11Drain                     // datagrams while allowed, at the same instant, no cap (safety cap c11DrainCap)
-	c11Pace                      // the steady-state loop: c11PaceN x (sleep until announced; one datagram if allowed)
-	c11Sleep                     // sleep until the time TimeUntilSend announces
-	c11Sleep1                    // ... and wake 1ns late
-	c11Idle1                     // idle 1s
-	c11Idle10                    // idle 10s
-	c11NextSec                   // advance to the next whole-second boundary
-	c11Ack49_0                   // ack/loss batches (n acked, m lost)
+	c11Send1   c11Action = iota // one datagram if CanSend && HasPacingBudget(now)
+	c11Burst                    // up to c11BurstCap datagrams while allowed, at the same instant
+	c11Drain                    // datagrams while allowed, at the same instant, no cap (safety cap c11DrainCap)
+	c11Pace                     // the steady-state loop: c11PaceN x (sleep until announced; one datagram if allowed)
+	c11Sleep                    // sleep until the time TimeUntilSend announces
+	c11Sleep1                   // ... and wake 1ns late
+	c11Idle1                    // idle 1s
+	c11Idle10                   // idle 10s
+	c11NextSec                  // advance to the next whole-second boundary
+	c11Ack49_0                  // ack/loss batches (n acked, m lost)
 	c11Ack50_0
 	c11Ack40_10
 	c11Ack39_11
@@ -66,16 +66,30 @@ const (
 	c11Ack0_50
 	c11Probe // a datagram sent WITHOUT asking the pacer (quic-go: PTO probes and ACK-only packets bypass HasPacingBudget)
 	c11MTU   // path-MTU discovery raises the datagram size (quic-go calls SetMaxDatagramSize after the probe's ACK): +172 bytes, up to 1500
+	// small batches (part small-batches): each is well below the 50-sample threshold on its own, so
+	// the threshold is crossed by an ACCUMULATION of batches - with the losses and the crossing in
+	// different batches. Sizes from the two constants: 10+10 then 40 acked = 50/60 (between), 10+30
+	// then 20 acked = 30/60 (clamped at 0.8), 1+0 / 0+1 = what one ACK frame usually carries.
+	// Added after the independently seeded change C11-8 (an ACK-only batch arriving while the factor
+	// is 1 skipped the recomputation, so losses counted below 50 samples were never applied).
+	c11Ack10_10
+	c11Ack10_30
+	c11Ack20_0
+	c11Ack40_0
+	c11Ack1_0
+	c11Ack0_1
 	c11NActions
 )
 
 var c11ActionNames = [c11NActions]string{
 	"send1", "burst16", "drain", "pace16", "sleep", "sleep+1ns", "idle1s", "idle10s", "nextsec",
 	"ack(49,0)", "ack(50,0)", "ack(40,10)", "ack(39,11)", "ack(10,40)", "ack(0,50)", "probe", "mtu+172",
+	"ack(10,10)", "ack(10,30)", "ack(20,0)", "ack(40,0)", "ack(1,0)", "ack(0,1)",
 }
 
 var c11Batches = [c11NActions][2]int{
 	c11Ack49_0: {49, 0}, c11Ack50_0: {50, 0}, c11Ack40_10: {40, 10}, c11Ack39_11: {39, 11}, c11Ack10_40: {10, 40}, c11Ack0_50: {0, 50},
+	c11Ack10_10: {10, 10}, c11Ack10_30: {10, 30}, c11Ack20_0: {20, 0}, c11Ack40_0: {40, 0}, c11Ack1_0: {1, 0}, c11Ack0_1: {0, 1},
 }
 
 const (
@@ -96,6 +110,13 @@ var (
 	c11AlphaProbe = []c11Action{c11Send1, c11Drain, c11Probe, c11Pace, c11Sleep, c11Idle1, c11Ack50_0, c11Ack40_10, c11MTU}
 	c11AlphaDrain = []c11Action{c11Send1, c11Drain, c11Pace, c11Sleep, c11Sleep1, c11Idle1, c11Idle10, c11NextSec,
 		c11Ack49_0, c11Ack50_0, c11Ack40_10, c11Ack39_11, c11Ack10_40, c11Ack0_50, c11MTU}
+	// histories of SMALL batches: the 50-sample threshold is reached over several batches, inside
+	// or across the five-second window (idle1s / idle10s / nextsec age them), with losses and
+	// ACK-only batches in every order; the sends show the factor in the pacing rate and the window.
+	// (added after the independently seeded change C11-8: an ACK-only batch at factor 1 skipped
+	// the recomputation of the factor)
+	c11AlphaSmall = []c11Action{c11Send1, c11Burst, c11Sleep, c11Idle1, c11Idle10, c11NextSec,
+		c11Ack10_10, c11Ack10_30, c11Ack20_0, c11Ack40_0, c11Ack1_0, c11Ack0_1}
 )
 
 // ---------------------------------------------------------------------------------------------
@@ -687,32 +708,38 @@ type c11PartCfg struct {
 	two   bool // a second sender of another rate/size/compensation setting is stepped after every step
 }
 
-func c11Depths(thorough bool) (seq, drain int) {
+func c11Depths(thorough bool) (seq, drain, small int) {
 	if thorough {
-		return 7, 5
+		return 7, 5, 6
 	}
-	return 6, 4
+	return 6, 4, 5
 }
 
 func c11Enumerate(sh *evidence.Shard) {
 	env := sh.Env()
-	dSeq, dDrain := c11Depths(env.Thorough())
+	dSeq, dDrain, dSmall := c11Depths(env.Thorough())
 	parts := []c11PartCfg{
 		// (the small targeted parts first: on a loaded machine the deadline then cuts the big one)
 		{"two-senders", c11AlphaSeq, dDrain, true},
 		{"probe", c11AlphaProbe, dDrain + 1, false},
+		// added after the independently seeded change C11-8 (see c11AlphaSmall)
+		{"small-batches", c11AlphaSmall, dSmall, false},
 		{"drain", c11AlphaDrain, dDrain, false},
 		{"seq", c11AlphaSeq, dSeq, false},
 	}
 	for _, pc := range parts {
 		p := sh.Part(pc.name, "enum")
 		names := c11SeqNames(pc.alpha)
-		p.Alphabet = map[string]any{
+		alpha := map[string]any{
 			"rate_Bps": c11Rates, "datagram": c11Sizes, "smoothed_rtt": []string{"0(none)", "1ms", "50ms", "300ms"}, "loss_compensation": []string{"on", "off"},
-			"actions": names,
+			"actions":          names,
 			"action_semantics": "send1: one datagram if CanSend&&HasPacingBudget(now); burst16/drain: datagrams while allowed at one instant (cap 16 / none); pace16: 16 x (sleep until announced, then one datagram if allowed); sleep: now=TimeUntilSend() if later; sleep+1ns: one ns late; idle1s/idle10s; nextsec: next whole-second boundary; ack(n,m): OnCongestionEventEx with n acked, m lost (in flight reduced by n+m datagrams)",
 			"clock_start_ns":   c11Start,
 		}
+		if pc.name == "small-batches" {
+			alpha["batch_histories"] = "ack/loss batches of 1..40 samples: the 50-sample threshold is crossed by accumulation over several batches (losses first then ACK-only batches, and every other order), within and across the five-second window; the factor is compared with the reference after every batch"
+		}
+		p.Alphabet = alpha
 		p.Bounds = map[string]any{"max_sequence_length": pc.depth, "grid_points": len(c11Rates) * len(c11Sizes) * len(c11RTTs) * len(c11Comp),
 			"gap_restriction": "a time advance is not taken when ceil(rate/0.8) x (new now - last send) >= 2^63"}
 		classes := map[uint64]struct{}{}
@@ -775,7 +802,7 @@ func TestVerifC11(t *testing.T) {
 	evidence.Main(t, "C11", evidence.Seq{
 		Run: c11Enumerate,
 		Replay: func(part string, raw json.RawMessage) (bool, bool, string) {
-			if part != "seq" && part != "drain" && part != "probe" {
+			if part != "seq" && part != "drain" && part != "probe" && part != "small-batches" {
 				return false, false, ""
 			}
 			var c c11Case
